@@ -414,7 +414,7 @@ impl Prop for P {
             },
             Tier::Thorough => Plan {
                 workers: 16,
-                cases_per_worker: 300000,
+                cases_per_worker: 800000,
                 timeout_s: 14400,
                 max_shrink_iters: 3000,
             },
